@@ -218,3 +218,22 @@ def sole_caller(F, cname):
     if c not in F.fns or not helper_like(F, F.fns[c], cname):
         return None
     return c
+
+
+
+def home(F, name, allowed, depth=3):
+    """`name`, or the member of `allowed` it was split off from: a closure belongs to its parent, a private helper with one
+    caller to that caller (who-may-call / who-may-write tables list today's functions; a piece split off one of them is
+    still that function)"""
+    cur = name
+    for _ in range(depth + 1):
+        if cur in allowed:
+            return cur
+        if "::{closure" in cur:
+            cur = cur[:cur.index("::{closure")]
+            continue
+        up = sole_caller(F, cur)
+        if up is None:
+            break
+        cur = up
+    return cur if cur in allowed else name
